@@ -28,6 +28,7 @@ import (
 	"testing"
 	"time"
 
+	"github.com/flynn/noise"
 	kit "github.com/refraction-networking/conjure/internal/verifkit"
 	"github.com/refraction-networking/conjure/pkg/registrars/dns-registrar/dns"
 	"github.com/refraction-networking/conjure/pkg/registrars/dns-registrar/encryption"
@@ -829,4 +830,78 @@ func TestVerifC15Exchange(t *testing.T) {
 		}
 	}
 	rec.Count("log_lines_captured", c15Logs.total)
+}
+
+// ---- craftResponse on a caller-owned buffer -----------------------------------------------------------------------------------
+
+// TestVerifC15CraftResponse hands the SAME encrypted request bytes to the real craftResponse twice (a retransmitted query):
+// the callback must see the payload both times, the caller's buffer must be unchanged, and the first answer must decrypt to
+// the callback's return under the initiator's cipher state.
+func TestVerifC15CraftResponse(t *testing.T) {
+	log.SetOutput(c15Logs)
+	rec := kit.NewRec("C15", "craft")
+	defer rec.Close()
+	rng := kit.Rand("c15craft")
+	priv, err := encryption.GeneratePrivkey()
+	if err != nil {
+		t.Fatal(err)
+	}
+	r, err := NewDnsResponder("t.example.com", "127.0.0.1:0", priv)
+	if err != nil {
+		t.Fatal(err)
+	}
+	defer r.Close() // RecvAndRespond is not running here
+	pub := encryption.PubkeyFromPrivkey(priv)
+	for n := 0; n <= kit.Tier(300, 2000); n++ {
+		desc := fmt.Sprintf("craftResponse request=%d response=%d", n, (n*7)%900)
+		rec.CaseCheap(desc)
+		rec.Count("evaluations", 1)
+		req, resp := c15Payload(rng, n), c15Payload(rng, (n*7)%900)
+		ic := encryption.NewConfig()
+		ic.Initiator = true
+		ic.PeerStatic = pub
+		ih, err := noise.NewHandshakeState(ic)
+		if err != nil {
+			t.Fatal(err)
+		}
+		msg, iRecv, _, err := ih.WriteMessage(nil, req)
+		if err != nil {
+			rec.Count("rejected", 1)
+			continue
+		}
+		snap := append([]byte(nil), msg...)
+		var seen [][]byte
+		cb := func(b []byte) ([]byte, error) {
+			seen = append(seen, append([]byte(nil), b...))
+			return resp, nil
+		}
+		var out1, out2 []byte
+		var e1, e2 error
+		if pk, v, st := c15Try(func() {
+			out1, e1 = r.craftResponse(msg, cb)
+			out2, e2 = r.craftResponse(msg, cb)
+		}); pk {
+			rec.Violation("craft:panic", "craftResponse panicked on a request the initiator produced", map[string]interface{}{"case": desc, "panic": fmt.Sprint(v), "stack": st})
+			continue
+		}
+		if !bytes.Equal(msg, snap) {
+			rec.Violation("craft:decoder-modifies-its-input", "craftResponse changed the caller's request buffer", map[string]interface{}{"case": desc})
+			continue
+		}
+		if e1 != nil || e2 != nil || len(seen) != 2 || !bytes.Equal(seen[0], req) || !bytes.Equal(seen[1], req) {
+			rec.Violation("craft:request-not-recovered-on-every-read", "the same encrypted request handed to craftResponse twice did not give the callback the payload both times",
+				map[string]interface{}{"case": desc, "err1": fmt.Sprint(e1), "err2": fmt.Sprint(e2), "callback_invocations": len(seen)})
+			continue
+		}
+		got, derr := iRecv.Decrypt(nil, nil, out1)
+		if derr != nil || !bytes.Equal(got, resp) {
+			rec.Violation("craft:response-mismatch", "the initiator cannot decrypt craftResponse's answer to the callback's return value", map[string]interface{}{"case": desc, "error": fmt.Sprint(derr)})
+			continue
+		}
+		_ = out2
+		rec.Count("accepted_roundtrips", 1)
+		if n > 0 {
+			rec.Distinct("nontrivial", desc)
+		}
+	}
 }
